@@ -1306,6 +1306,13 @@ class Engine:
     def ex_GeneratorExp(self, node, env):
         # evaluated eagerly (sound for the side-effect free element expressions of this code base; the consumer --
         # tuple(), list(), join, any/all -- iterates it completely and at once)
+        if len(node.generators) == 1 and not self.spec_mode:
+            it = self.eval(node.generators[0].iter, env)
+            try:
+                self.concrete_iter(it)
+            except Unsupported as u:
+                # iterable of unknown length: an abstract generator that only any() / all() accept
+                return VGenAbs(node, str(u))
         return self.ex_ListComp(node, env)
 
     def ex_Call(self, node, env):
